@@ -191,7 +191,12 @@ func main() {
 
 	if authInfo.Unordered {
 		acceptor := func() (*net.UDPConn, error) {
-			udpAddr, _ := net.ResolveUDPAddr("udp", localConfig.LocalAddr)
+			udpAddr, err := net.ResolveUDPAddr("udp", localConfig.LocalAddr)
+			if err != nil {
+				// as in TCP mode, an invalid local address is an error: ListenUDP(nil) would listen on a
+				// random port of every interface
+				return nil, err
+			}
 			return net.ListenUDP("udp", udpAddr)
 		}
 
